@@ -124,7 +124,8 @@ def structured_program(sid, rng, mbc=None, steps=None):
     if mbc == 1: cart = (rng.choice([1, 3]), 2, 3)
     if mbc == 0x13: cart = (rng.choice([0x11, 0x13]), 3, 3)
     if mbc == 0x33: cart = (0x13, 5, 3)            # 64 banks: bank numbers that differ by 32 hold different code
-    banks = {0: 2, 2: 8, 3: 16, 5: 64}[cart[1]]
+    if mbc == 0x52: cart = (0x13, 0x52, 3)         # 72 banks: a size that is not a power of two
+    banks = {0: 2, 2: 8, 3: 16, 5: 64, 0x52: 72}[cart[1]]
     chunks = []
     counter = [0xC100, 0xC101, 0xC102, 0xFF90, 0xFF91]
     # interrupt handlers
@@ -193,7 +194,7 @@ def structured_program(sid, rng, mbc=None, steps=None):
             for x in body: a.emit(0x36, x, 0x23)
             a.emit(0xCD); a.word(dst)
         elif k == 8 and mbc:                                          # bank switch and call into the bank
-            bank = rng.randrange(1, banks) if banks <= 16 else rng.choice([1, 33, 2, 34, 1, 33, 17, 49])
+            bank = rng.randrange(1, banks) if banks <= 16 else (rng.choice([1, 33, 2, 34, 1, 33, 17, 49]) if banks == 64 else rng.choice([1, 9, 2, 40, 64, 71, 8, 63]))
             a.emit(0x3E, bank, 0xEA); a.word(rng.choice([0x2000, 0x2100, 0x3FFF]))
             a.emit(0xCD); a.word(0x4000 + 16 * rng.randrange(4))
         elif k == 9:                                                  # serial output
@@ -334,6 +335,11 @@ def random_block_scenario(sid, rng, maxlen=32):
             6: 0x0000, 7: rng.randrange(0x200, 0x7000)}[where]
     base = max(0, min(base, 0x8000 - L))
     regs = cpu(a=rng.randrange(256), f=rng.randrange(16) * 16, sp=rng.choice(POINTERS), pc=base)
+    cart, phys, bankw = (0, 0, 2), base, []
+    if 0x4000 <= base and base + L <= 0x8000 and rng.randrange(3) == 0:
+        # the block lives in a high bank of a 72-bank MBC3 cartridge ("at any ROM placement")
+        bank = rng.choice([9, 40, 64, 71, 8, 63, 2])
+        cart, phys, bankw = (0x11, 0x52, 2), bank * 0x4000 + (base - 0x4000), [(0x2000, bank)]
     for rr in (("b", "c"), ("d", "e"), ("h", "l")):
         v = rng.choice(POINTERS) if rng.randrange(4) else rng.randrange(65536)
         regs[rr[0]] = v >> 8; regs[rr[1]] = v & 0xFF
@@ -343,8 +349,25 @@ def random_block_scenario(sid, rng, maxlen=32):
     for _ in range(6):
         a = rng.choice(POINTERS)
         if 0x8000 <= a < 0xFF00 or a >= 0xFF80: iw.append((a, rng.randrange(256)))
-    return scenario(sid, [(base, code)], regs, 1, mode="block", ime=rng.choice(["Disabled", "Enabled"]),
-                    init_writes=iw, cart=(0, 0, 2), romfill=rng.choice([0x00, 0xFF, 0x76]))
+    if cart[0] != 0:
+        # a store into 0x0000-0x7FFF would switch the bank under the running block (that is C03's SelfSwitch shape, a
+        # known finding): these blocks are made of register instructions and loads only, with the stack in work RAM
+        code = []
+        for _ in range(rng.randint(1, maxlen)):
+            if rng.randrange(4):
+                code += alu_op(rng)
+                continue
+            op = rng.choice([0x7E, 0x46, 0x4E, 0x0A, 0x1A, 0x2A, 0x3A, 0x86, 0xBE, 0xF0, 0xFA])
+            code.append(op)
+            if op == 0xF0: code.append(rng.choice([0x04, 0x44, 0x0F, 0x80]))
+            if op == 0xFA: code += [rng.randrange(256), rng.randrange(256)]
+        code += rand_instr(rng, rng.choice([0xC3, 0x18, 0x76, 0xE9, 0xFB, 0xF3, 0xC9, 0xCD, 0xC7, 0x20, 0xCA]))
+        if base + len(code) > 0x8000:
+            base = 0x8000 - len(code)
+            regs["pc"], phys = base, bank * 0x4000 + (base - 0x4000)
+        regs["sp"] = 0xDFF0
+    return scenario(sid, [(phys, code)], regs, 1, mode="block", ime=rng.choice(["Disabled", "Enabled"]),
+                    init_writes=bankw + iw, cart=cart, romfill=rng.choice([0x00, 0xFF, 0x76]))
 
 def random_blocks(n, rng, start_id=4000000, maxlen=32):
     return [random_block_scenario(start_id + i, rng, maxlen) for i in range(n)]
